@@ -22,8 +22,78 @@ void verif_obs(long v) { printf("OBS %ld\n", v); }
 void verif_note(const char*) {}
 void ir2c_global_ctors(void) {}
 unsigned long verif_file_size(const char* p) { struct stat st; if (stat(p, &st) != 0) return (unsigned long)-1; return st.st_size; }
-void verif_vfs_freeze(int on) { fflush(NULL); g_frozen = on; }
+// ---- the same persistence-event model as the engine's VFS, on the real file system (linked with -Wl,--wrap=...):
+// output streams opened by the code under test are buffered here; a flush of a non-empty buffer is one atomic persistence event.
+static long g_die_after = -1, g_die_base = 0;
+static int vfs_event() { g_events++; if (g_die_after >= 0 && !g_frozen && g_events - g_die_base > g_die_after) g_frozen = 1; return g_frozen; }
+void verif_vfs_freeze(int on) { g_frozen = on; if (!on) g_die_after = -1; }
 long verif_vfs_events(void) { return g_events; }
+void verif_vfs_die_after(long n) { g_die_after = n; g_die_base = g_events; }
+int verif_vfs_event(void) { return vfs_event(); }
+int verif_vfs_frozen(void) { return g_frozen; }
+}
+#include <map>
+#include <stdarg.h>
+struct WStream { std::string buf; int mode; bool dropped; };      // mode 0 full, 1 line, 2 none
+static std::map<FILE*, WStream> g_streams;
+extern "C" {
+FILE* __real_fopen(const char*, const char*); int __real_fclose(FILE*); size_t __real_fwrite(const void*, size_t, size_t, FILE*); int __real_fflush(FILE*);
+int __real_setvbuf(FILE*, char*, int, size_t); long __real_ftell(FILE*); int __real_fseek(FILE*, long, int); int __real_unlink(const char*); int __real_rename(const char*, const char*);
+int __real_truncate(const char*, off_t); int __real_vfprintf(FILE*, const char*, va_list);
+static void wflush(FILE* f, WStream& w, size_t upto = std::string::npos) {
+  if (w.buf.empty()) return;
+  std::string out = upto == std::string::npos ? w.buf : w.buf.substr(0, upto);
+  w.buf = upto == std::string::npos ? std::string() : w.buf.substr(upto);
+  if (vfs_event() || w.dropped) return;
+  __real_fwrite(out.data(), 1, out.size(), f); __real_fflush(f);
+}
+static void wappend(FILE* f, WStream& w, const char* p, size_t n) {
+  w.buf.append(p, n);
+  if (w.mode == 2) wflush(f, w);
+  else if (w.mode == 1) { size_t nl = w.buf.rfind('\n'); if (nl != std::string::npos) wflush(f, w, nl + 1); }
+  else if (w.buf.size() > (1u << 19)) wflush(f, w);
+}
+FILE* __wrap_fopen(const char* path, const char* mode) {
+  if (mode[0] == 'r') return __real_fopen(path, mode);
+  vfs_event();
+  FILE* f = g_frozen ? __real_fopen("/dev/null", "w") : __real_fopen(path, mode);
+  if (f) { __real_setvbuf(f, NULL, _IONBF, 0); WStream w; w.mode = 0; w.dropped = g_frozen; g_streams[f] = w; }
+  return f;
+}
+int __wrap_setvbuf(FILE* f, char* b, int mode, size_t size) {
+  std::map<FILE*, WStream>::iterator it = g_streams.find(f);
+  if (it == g_streams.end()) return __real_setvbuf(f, b, mode, size);
+  it->second.mode = mode == _IOLBF ? 1 : mode == _IONBF ? 2 : 0; return 0;
+}
+size_t __wrap_fwrite(const void* p, size_t size, size_t n, FILE* f) {
+  std::map<FILE*, WStream>::iterator it = g_streams.find(f);
+  if (it == g_streams.end()) return __real_fwrite(p, size, n, f);
+  wappend(f, it->second, (const char*)p, size * n); return n;
+}
+int __wrap_fprintf(FILE* f, const char* fmt, ...) {
+  va_list ap; va_start(ap, fmt);
+  std::map<FILE*, WStream>::iterator it = g_streams.find(f);
+  int r;
+  if (it == g_streams.end()) r = __real_vfprintf(f, fmt, ap);
+  else { char tmp[1 << 16]; r = vsnprintf(tmp, sizeof tmp, fmt, ap); if (r > 0) wappend(f, it->second, tmp, (size_t)r < sizeof tmp ? r : sizeof tmp - 1); }
+  va_end(ap); return r;
+}
+int __wrap_fflush(FILE* f) {
+  if (!f) { for (std::map<FILE*, WStream>::iterator it = g_streams.begin(); it != g_streams.end(); ++it) wflush(it->first, it->second); return __real_fflush(NULL); }
+  std::map<FILE*, WStream>::iterator it = g_streams.find(f);
+  if (it == g_streams.end()) return __real_fflush(f);
+  wflush(f, it->second); return 0;
+}
+int __wrap_fclose(FILE* f) {
+  std::map<FILE*, WStream>::iterator it = g_streams.find(f);
+  if (it != g_streams.end()) { wflush(f, it->second); g_streams.erase(it); }
+  return __real_fclose(f);
+}
+long __wrap_ftell(FILE* f) { std::map<FILE*, WStream>::iterator it = g_streams.find(f); if (it != g_streams.end()) wflush(f, it->second); return __real_ftell(f); }
+int __wrap_fseek(FILE* f, long off, int wh) { std::map<FILE*, WStream>::iterator it = g_streams.find(f); if (it != g_streams.end()) wflush(f, it->second); return __real_fseek(f, off, wh); }
+int __wrap_unlink(const char* p) { struct stat st; if (stat(p, &st) != 0) return __real_unlink(p); if (vfs_event()) return 0; return __real_unlink(p); }
+int __wrap_rename(const char* a, const char* b) { struct stat st; if (stat(a, &st) != 0) return __real_rename(a, b); if (vfs_event()) return 0; return __real_rename(a, b); }
+int __wrap_truncate(const char* p, off_t n) { struct stat st; if (stat(p, &st) != 0) return __real_truncate(p, n); if (vfs_event()) return 0; return __real_truncate(p, n); }
 void verif_expect_fatal(int) {}
 }
 int main(int argc, char** argv) {
